@@ -351,6 +351,32 @@ func cmdAPI(args []string) {
 			r.StopNode()
 			r.Srv.Stop()
 		}
+		// ---- schedule 6: the rich-list methods are called while the sync goroutine has applied block c+1 (its own averages request
+		//      done) but not yet committed it - the reader still sees c as the tip
+		{
+			g := &gate{}
+			node.VerifGate = g.hook
+			r := newRunner("midblock")
+			for h := config.PegnetActivation + 1; h <= cH; h++ {
+				r.Advance(h, 20*time.Second)
+			}
+			g.arm("sync:before-commit", false)
+			r.Srv.SetTip(cH + 1)
+			reached := g.wait(5 * time.Second)
+			if reached {
+				r.Call("get-global-rich-list", map[string]interface{}{"count": 5}, nil)
+				for _, t := range s.Assets {
+					r.Call("get-rich-list", map[string]interface{}{"asset": t, "count": 3}, nil)
+				}
+			}
+			g.open()
+			eq := finish(r, cH+1)
+			emit(map[string]interface{}{"ev": "ApiExp", "schedule": "reads-before-commit", "h": cH, "feasible": reached,
+				"seen": 0, "committed": 0, "equal": eq})
+			r.StopAPI()
+			r.StopNode()
+			r.Srv.Stop()
+		}
 		node.VerifGate = nil
 	} else {
 		// ---- load: API clients hammer every read method while the chain is synced block by block
